@@ -478,6 +478,7 @@ func RunSchedWorld(c *Ctl, prof *SchedProfile, g *GraphSpec, res *RunResult) {
 
 	scheduler.VerifPause = simPause
 	defer func() { scheduler.VerifPause = 0 }()
+	defer installPassOrder(c)()
 	sd := scheduler.NewScheduler(stub)
 	c.atAbort = append(c.atAbort, sd.Cancel)
 	go func() {
